@@ -202,3 +202,78 @@ VMC_HARNESS(scope_close_race, "C08,C01") {
   if (!y.started) vmc::check(ry.how == 'D', "C08", "late-nest", "work nested after the close did not complete with done");
   vmc::note(std::string(y.started ? "y-admitted" : "y-refused"));
 }
+
+// v1 (arg0=0) / v0 (arg0=1) scope, sequential: every sequence of <= arg1 operations over
+//   {spawn A, spawn B, start complete(), start cleanup(), request_stop(), finish A, finish B}
+// against a reference model: a leaf admitted before the close runs, a later one is never started; once request_stop()
+// or a started cleanup() returned, every pending leaf has seen the stop request - whatever closed the scope first;
+// each started join completes exactly once, and only when the scope is closed and nothing is pending. At the end of
+// the sequence the scope is stopped and the leaves that saw the stop complete with done: every join must then complete.
+// (Added for seed C08e: a request_stop() after complete() was enumerated nowhere.)
+template <class Op>
+struct InPlace { Op op; template <class F> explicit InPlace(F&& f) : op(f()) {} };
+template <class Scope>
+static void scope_ops_run(int depth) {
+  Scope scope;
+  LeafState l[2]; l[0].props = l[1].props = "C08,C02"; l[0].name = "A"; l[1].name = "B";
+  RcvState rj[2]; rj[0].props = rj[1].props = "C08,C01";
+  bool spawned[2] = {false, false}, joined[2] = {false, false};
+  bool closed = false, stopped = false;
+  using cop_t = decltype(unifex::connect(scope.complete(), JoinRcv{nullptr, nullptr, nullptr, nullptr}));
+  using kop_t = decltype(unifex::connect(scope.cleanup(), JoinRcv{nullptr, nullptr, nullptr, nullptr}));
+  std::optional<InPlace<cop_t>> cop; std::optional<InPlace<kop_t>> kop;   // operation states do not move: built in place
+  std::string trace;
+  auto invariant = [&](const char* after) {
+    for (int i = 0; i < 2; ++i) {
+      if (stopped && l[i].pending())
+        vmc::check(l[i].stop_seen, "C08,C04", "stop-not-delivered", (std::string("after ") + after + " [" + trace + "]: request_stop()/cleanup() returned but outstanding spawned work did not observe a stop request").c_str());
+      if (joined[i]) {
+        bool should = closed && !l[0].pending() && !l[1].pending();
+        vmc::check(rj[i].count == (should ? 1 : 0), "C08,C01", should ? "join-lost" : "join-early", (std::string("after ") + after + " [" + trace + "]: started join completed " + std::to_string(rj[i].count) + " times").c_str());
+      }
+    }
+  };
+  for (int step = 0; step < depth; ++step) {
+    int op = vmc::choose(7);
+    trace += char('0' + op);
+    switch (op) {
+      case 0: case 1: {
+        int i = op;
+        if (spawned[i]) break;
+        spawned[i] = true;
+        if constexpr (std::is_same_v<Scope, v0::async_scope>) scope.spawn(kit::VLeaf{&l[i]});
+        else scope.detached_spawn(kit::VLeaf{&l[i]});
+        if (closed) vmc::check(l[i].started == 0 && l[i].ops_alive == 0, "C08", "late-nest", "work spawned after the scope was closed was started or leaked");
+        else vmc::check(l[i].started == 1, "C08", "admitted-not-started", "work spawned in an open scope was not started");
+        break;
+      }
+      case 2:
+        if (joined[0]) break;
+        joined[0] = true; closed = true;
+        cop.emplace([&] { return unifex::connect(scope.complete(), JoinRcv{&rj[0], &l[0], &l[1], nullptr}); });
+        unifex::start(cop->op);
+        break;
+      case 3:
+        if (joined[1]) break;
+        joined[1] = true; closed = true; stopped = true;
+        kop.emplace([&] { return unifex::connect(scope.cleanup(), JoinRcv{&rj[1], &l[0], &l[1], nullptr}); });
+        unifex::start(kop->op);
+        break;
+      case 4: scope.request_stop(); closed = true; stopped = true; break;
+      case 5: case 6: { int i = op - 5; if (l[i].pending()) kit::complete(l[i], 'V'); break; }
+    }
+    invariant("step");
+  }
+  // wind down: stop, let the stopped leaves finish, join if nobody did
+  scope.request_stop(); closed = true; stopped = true;
+  invariant("final request_stop()");
+  for (int i = 0; i < 2; ++i) if (l[i].pending()) kit::complete(l[i], 'D');
+  if (!joined[0]) { joined[0] = true; cop.emplace([&] { return unifex::connect(scope.complete(), JoinRcv{&rj[0], &l[0], &l[1], nullptr}); }); unifex::start(cop->op); }
+  invariant("wind-down");
+  for (int i = 0; i < 2; ++i) vmc::check(l[i].ops_alive == 0, "C08,C02", "op-leaked", "a spawned operation state outlived its completion");
+  vmc::note(std::string(rj[0].count ? "c" : "") + (rj[1].count ? "k" : "") + (l[0].stop_seen ? "a" : "") + (l[1].stop_seen ? "b" : "") + (l[0].started ? "A" : "") + (l[1].started ? "B" : ""));
+}
+VMC_HARNESS(scope_ops, "C08,C01,C04") {
+  int which = vmcrt::arg(0, 0), depth = vmcrt::arg(1, 4);
+  if (which == 0) scope_ops_run<v1::async_scope>(depth); else scope_ops_run<v0::async_scope>(depth);
+}
